@@ -294,6 +294,13 @@ class Typer:
         if name == "var":
             t = self.ty(args[0])
             return T(2 * t.d, 0) if isinstance(t, T) else t
+        if name.split(".")[-1] in ("round", "around", "rint", "floor", "ceil", "trunc", "fix") and args:
+            t = self.ty(args[0])
+            if isinstance(t, T) and t.d != 0:
+                self.err(f"{name.split('.')[-1]}({short(args[0], 40)}, ...)", "a quantity that scales with the waveform is rounded to an absolute grid (10^-decimals of whatever unit the input is in): "
+                                                                            "for a waveform expressed in a small unit the levels collapse onto a few grid points and the estimates change with the unit")
+                return BAD
+            return t
         if name.split(".")[-1] in ("resample_poly", "upfirdn", "decimate", "lfilter", "convolve", "fftconvolve") and args:
             # FIR / polyphase filtering treats everything outside the record as 0 V unless another padding is requested: for data
             # that shift with the waveform the edge transient (and everything estimated from samples it reaches) depends on the offset
